@@ -1,6 +1,6 @@
 (* C13 — pickle input is equivalent to the plain-text input for the same datapoints. *)
 From CRNG Require Import Base.ListX Base.Bytes Base.Decimal Model.PickleVM Model.Reencode Model.PickleIn Model.PyPickle
-  Proofs.ReencodeProofs Proofs.PickleInProofs Proofs.PickleIn1 Proofs.PickleIn0 Proofs.PickleIn4.
+  Proofs.ReencodeProofs Proofs.PickleInProofs Proofs.PickleIn1 Proofs.PickleIn0 Proofs.PickleIn4 Proofs.PickleInLong.
 Local Open Scope N_scope.
 
 (* Decoding (the og-rek machine, any text-float oracle) what CPython's pickler writes in protocol 2 or 3
@@ -86,6 +86,52 @@ Theorem C13_frames_become_lines_all_protocols :
 Proof. exact handle_conn_frames_all. Qed.
 Print Assumptions C13_frames_become_lines_all_protocols.
 
+(* Integers beyond int32 (protocols 2 and 3): CPython writes LONG1 — a length byte k = (bit_length >> 3) + 1 and the k little-endian
+   bytes — and og-rek reads it back as a big integer, for EVERY non-negative integer whose length byte stays within 127
+   (n < 2^1015; above that lies the recorded og-rek finding C13:known:huge_long).  py_dumpsL coincides with py_dumps where the
+   latter applies (C13_long_model_extends_int32_model), so this statement subsumes C13_decode_what_python_encodes. *)
+Theorem C13_decode_what_python_encodes_long :
+  forall pf proto ds,
+    forallb dp_okL ds = true -> 3 * N.of_nat (length ds) + 1 < 4294967296 ->
+    unpickle pf false (py_dumpsL proto ds)
+    = RDone (VList (map (fun d => VTuple [VStr (d_name d); VTuple [num_valL (d_ts d); num_valL (d_val d)]]) ds)).
+Proof. exact unpickle_py_dumpsL. Qed.
+Print Assumptions C13_decode_what_python_encodes_long.
+
+(* ... and the connection hands on the same text as the plain-text input would carry: the integer verbatim in decimal *)
+Theorem C13_frames_become_lines_long :
+  forall pf fmt6 fmt0 (pss : list (N * list pydp)),
+    Forall (fun pd => frame_okL (fst pd) (snd pd)) pss ->
+    handle_conn pf fmt6 fmt0 (concat (map (fun pd => frame_of (py_dumpsL (fst pd) (snd pd))) pss))
+    = (concat (map (fun pd => map (fun d => EvLine (line_of fmt6 fmt0 d)) (snd pd)) pss), FinOk).
+Proof. exact handle_conn_framesL. Qed.
+Print Assumptions C13_frames_become_lines_long.
+
+Theorem C13_frame_then_rest_long :
+  forall pf fmt6 fmt0 f proto ds rest,
+    frame_okL proto ds ->
+    handle_stream pf fmt6 fmt0 (S f) (frame_of (py_dumpsL proto ds) ++ rest)
+    = let (evs, fn) := handle_stream pf fmt6 fmt0 f rest in
+      (map (fun d => EvLine (line_of fmt6 fmt0 d)) ds ++ evs, fn).
+Proof. exact handle_frameL. Qed.
+Print Assumptions C13_frame_then_rest_long.
+
+Theorem C13_long_model_extends_int32_model :
+  forall proto ds, forallb dp_ok ds = true -> py_dumpsL proto ds = py_dumps proto ds /\ forallb dp_okL ds = true.
+Proof.
+  intros proto ds H. split; [exact (py_dumpsL_small proto ds H)|].
+  apply forallb_forall. intros d Hd. pose proof (proj1 (forallb_forall _ _) H d Hd) as Hk. unfold dp_ok in Hk. unfold dp_okL.
+  apply andb_true_iff in Hk as [Hk Hv]. apply andb_true_iff in Hk as [Hn Ht].
+  rewrite Hn, (num_ok_okL _ Ht), (num_ok_okL _ Hv). reflexivity.
+Qed.
+Print Assumptions C13_long_model_extends_int32_model.
+
+(* the two's-complement reading of the k bytes CPython writes for n > 0 is n itself, for every n *)
+Theorem C13_long1_bytes_read_back :
+  forall n, 0 < n -> twos (le_bytes (N.to_nat (long_len n)) n) = Z.of_N n.
+Proof. exact twos_long. Qed.
+Print Assumptions C13_long1_bytes_read_back.
+
 (* one frame followed by anything: its lines come first, whatever the rest of the stream does *)
 Theorem C13_frame_then_rest :
   forall pf fmt6 fmt0 f proto ds rest,
@@ -134,3 +180,11 @@ Example C13_nonvacuous :
   frame_ok 2 [ {| d_name := [102;111;111]; d_ts := PyInt 1500000000; d_val := PyFloat 4609434218613702656 |};
                {| d_name := [98]; d_ts := PyInt 7; d_val := PyInt 300 |} ].
 Proof. unfold frame_ok. split; [reflexivity|]. split; vm_compute; [reflexivity | discriminate]. Qed.
+
+Example C13_long_nonvacuous :
+  (* pickle.dumps([("a", (2**31, 2**64 + 5))], 2) *)
+  py_dumpsL 2 [ {| d_name := [97]; d_ts := PyInt 2147483648; d_val := PyInt 18446744073709551621 |} ]
+  = [128;2;93;113;0;88;1;0;0;0;97;113;1;138;5;0;0;0;128;0;138;9;5;0;0;0;0;0;0;0;1;134;113;2;134;113;3;97;46]
+  /\ frame_okL 2 [ {| d_name := [97]; d_ts := PyInt 2147483648; d_val := PyInt 18446744073709551621 |} ]
+  /\ num_okL (PyInt (2 ^ 1015 - 1)) = true /\ num_okL (PyInt (2 ^ 1015)) = false.
+Proof. unfold frame_okL. repeat split; vm_compute; try reflexivity; discriminate. Qed.
